@@ -263,10 +263,13 @@ def _name_mismatch_edge(n, lab) -> bool:
 
 def _check_used_fill(ck: Checker, gc: Func, g, us: str) -> None:
     prog = ck.prog
+    from ..prov import alias_names
+
+    al = alias_names(gc, us)
     loops = [h for h in g.nodes.values() if h.kind == "for" and isinstance(h.ast.iter, ast.Name) and h.ast.iter.id == "used"]
     filled = False
     # form B: us = {x.value for x in used if x.name == odb.hash_name}
-    for d in scope_of(gc).get(us):
+    for d in [d0 for a_ in sorted(al) for d0 in scope_of(gc).get(a_)]:
         v = d.value
         if d.kind == "assign" and isinstance(v, ast.Call) and call_name(v) in ("set", "frozenset") and v.args:
             v = v.args[0]
@@ -288,7 +291,7 @@ def _check_used_fill(ck: Checker, gc: Func, g, us: str) -> None:
         body = [x for x in g.nodes.values() if h.id in x.loops and x.id != h.id]
         for x in body:
             for c in calls_at(x):
-                if is_method_call(c, "add") and isinstance(c.func.value, ast.Name) and c.func.value.id == us and c.args and norm(c.args[0]) == f"{lv}.value":
+                if is_method_call(c, "add") and isinstance(c.func.value, ast.Name) and c.func.value.id in al and c.args and norm(c.args[0]) == f"{lv}.value":
                     adds.append(x)
                     head = h
     if adds:
@@ -318,7 +321,7 @@ def _check_used_fill(ck: Checker, gc: Func, g, us: str) -> None:
         if not (h.kind == "for" and isinstance(h.ast.iter, ast.Name) and h.ast.iter.id == "used"):
             continue
         for c in calls_at(x):
-            if is_method_call(c, "update") and isinstance(c.func.value, ast.Name) and c.func.value.id == us and c.args:
+            if is_method_call(c, "update") and isinstance(c.func.value, ast.Name) and c.func.value.id in al and c.args:
                 arg = c.args[0]
                 okv = False
                 if isinstance(arg, (ast.GeneratorExp, ast.ListComp, ast.SetComp)) and isinstance(arg.generators[0].iter, ast.Name) and arg.generators[0].iter.id in tnames:
@@ -331,7 +334,7 @@ def _check_used_fill(ck: Checker, gc: Func, g, us: str) -> None:
         if x.kind == "for" and len(x.loops) == 2 and isinstance(x.ast.iter, ast.Name) and x.ast.iter.id in tnames and isinstance(x.ast.target, ast.Tuple) and len(x.ast.target.elts) >= 3:
             third = norm(x.ast.target.elts[-1])
             inner_adds = {y.id for y in g.nodes.values() if x.id in y.loops for c in calls_at(y)
-                          if is_method_call(c, "add") and norm(c.func.value) == us and c.args and norm(c.args[0]) == f"{third}.value"}
+                          if is_method_call(c, "add") and norm(c.func.value) in al and c.args and norm(c.args[0]) == f"{third}.value"}
             if inner_adds:
                 rr = g.reach([d for lab, d in x.succ if lab == "T"], skip_node=lambda y: y.id in inner_adds,
                              skip_edge=lambda a, l, b, third=third: l == "exc" or (a.kind == "test" and norm(a.ast) == third and l == "F"))
@@ -349,7 +352,7 @@ def _check_used_fill(ck: Checker, gc: Func, g, us: str) -> None:
             if n.kind == "test" and isinstance(n.ast, ast.Name) and n.ast.id == "shallow" and lab == "T":
                 return True
             e = n.ast
-            if n.kind == "test" and isinstance(e, ast.Compare) and len(e.ops) == 1 and isinstance(e.ops[0], ast.In) and norm(e.comparators[0]) == us and lab == "F":
+            if n.kind == "test" and isinstance(e, ast.Compare) and len(e.ops) == 1 and isinstance(e.ops[0], ast.In) and norm(e.comparators[0]) in al and lab == "F":
                 return True
             return False
 
